@@ -21,6 +21,11 @@ SHARD = 12
 MUST_OK = False
 
 
+def hashseeds(tier):
+    # the reported counterexample is chosen from a Python set: sampled under several iteration orders
+    return [0, 1, 2] if tier == 'quick' else list(range(8))
+
+
 def gen(rng, tier):
     return E.gen_cases(rng, 8 if tier == 'quick' else 120, 5 if tier == 'quick' else 8)
 
